@@ -988,9 +988,9 @@ class Food(UnitConversions):
                     self.kcals * other.kcals,
                     self.fat * other.fat,
                     self.protein * other.protein,
-                    self.kcals_units,
-                    self.fat_units,
-                    self.protein_units,
+                    kcals_units,
+                    fat_units,
+                    protein_units,
                 )
 
                 assert (
